@@ -424,6 +424,12 @@ class Fn:
             raise Unsupported('for-cond variable')
         b, bt = self.expr(cond['inner'][1], dict(env, **{v: '0'}))
         mb = re.fullmatch(r'\(?(-?\d+)(?: : Int\))?', b)
+        if not mb and re.fullmatch(r'[\d\s()+\-*/%]+', b):
+            # a constant expression such as 8 * sizeof(UINT32): fold it
+            try:
+                mb = re.fullmatch(r'(-?\d+)', str(eval(b.replace('/', '//'), {'__builtins__': {}})))
+            except Exception:
+                mb = None
         if not (ma and mb):
             raise Unsupported('for bounds not constant')
         lo, hi = int(ma.group(1)), int(mb.group(1))
